@@ -1,5 +1,6 @@
 import DswModel.Model.Graphized
 import DswModel.Model.Float
+import DswModel.Model.Shuffle
 /-!
 # dsw/graphized.py — `approximate_capacity` in DOUBLE PRECISION, operation by operation
 
@@ -128,5 +129,31 @@ def approximateCapacityF (a : Acc) (tol : Dbl) (maxIter : Nat) (starts : List Ve
         match capLoopF a tol maxIter (maxIter + 2) (zeroDeadF a x0) none [] [] with
         | none => none
         | some run => some (res ++ run.results, recs ++ [run.record])) (some ([], []))
+
+/-- `numpy.random.random(size=n)` after `numpy.random.seed(seed)` (legacy MT19937 generator, `Model/Shuffle.lean`): each
+double is `(a >> 5) * 2^26 + (b >> 6)` over `2^53` for two consecutive 32-bit outputs `a`, `b` — exactly representable. -/
+def randomDoubles : Nat → MT.State → List Dbl × MT.State
+  | 0, s => ([], s)
+  | n + 1, s =>
+    let (a, s1) := mtNext s
+    let (b, s2) := mtNext s1
+    let x : Dbl := ⟨((a / 32) * 67108864 + b / 64 : Nat), 9007199254740992⟩
+    let (rest, s3) := randomDoubles n s2
+    (x :: rest, s3)
+
+/-- the start vectors of the random mode: `repeats` successive draws of `abs(random.random(size=(n,)))`. -/
+def randomStarts (n repeats : Nat) (s : MT.State) : List VecF :=
+  match repeats with
+  | 0 => []
+  | r + 1 =>
+    let (v, s') := randomDoubles n s
+    v.toArray :: randomStarts n r s'
+
+/-- `numpy.random.seed(seed); approximate_capacity(accessor, tolerance_level, repeats ≥ 2, maximum_iteration)`: the whole
+randomised call inside the model (start vectors drawn by the modelled generator). -/
+def approximateCapacitySeeded (a : Acc) (tol : Dbl) (maxIter repeats seed : Nat) :
+    R (Option (List Dbl × List (List Dbl))) := do
+  let s ← mtSeed seed
+  pure (approximateCapacityF a tol maxIter (randomStarts a.size repeats s))
 
 end Dsw
